@@ -101,6 +101,14 @@ void read_crs(
     f.seekg(ptr_beg + n * sizeof(Ptr));
     precondition(read(f, nnz), "File I/O error");
 
+    // ptr comes from the file: it is used for allocation sizes, seek offsets
+    // and as row boundaries below, so it has to be a valid CRS pointer array.
+    precondition(ptr.front() >= 0 && ptr.back() <= nnz,
+            "Matrix file is corrupted (ptr is out of range)");
+    for(ptrdiff_t i = 0; i < chunk; ++i)
+        precondition(ptr[i] <= ptr[i + 1],
+                "Matrix file is corrupted (ptr is not monotone)");
+
     SizeT nnz_beg = ptr.front();
     if (nnz_beg) for(auto &p : ptr) p -= nnz_beg;
 
